@@ -41,20 +41,20 @@ theorem srec_bad_checksum_rejected (r : SrecRec) (h : r.WF) (ck : Nat) (hck : ck
   srecLineSet_bad_cksum r h ck hck hne
 
 /-- HEX address composition (`HEX.decode`) agrees with the Intel-HEX specification (the most recent
-    extension record decides between segment·16+offset and linear·65536+offset) for every stream
-    that uses at most one kind of extension record.  Partial: the code keeps *both* bases and lets a
-    non-zero linear base win over a later segment record — see `hex_address_mixed_witness`. -/
-theorem hex_address_composition_partial (ls : List HexLine)
-    (h : hexNoSeg ls = true ∨ hexNoLin ls = true) :
-    hexDecode ls = hexRefAddrs ls := by
-  rcases h with h | h
-  · exact hexDecode_noSeg ls 0 .plain h (Or.inl ⟨rfl, rfl⟩)
-  · exact hexDecode_noLin ls 0 .plain h (Or.inl ⟨rfl, rfl⟩)
+    extension record decides between segment·16+offset and linear·65536+offset) for EVERY stream of
+    records, mixed extension records included.  (The first version of the code kept both bases and
+    let a non-zero linear base win over a later segment record; the theorem was then only provable
+    for streams with one kind of extension record, with a `decide`d witness of the excluded case.  The
+    code was repaired and the model follows it.) -/
+theorem hex_address_composition (ls : List HexLine) :
+    hexDecode ls = hexRefAddrs ls :=
+  hexDecode_eq_ref ls .plain
 
-/-- the excluded case is real: type 04 (base 1), then type 02 (base 0x1000), then data at 0x10. -/
-theorem hex_address_mixed_witness :
+/-- the formerly excluded case: type 04 (base 1), then type 02 (base 0x2000), then data at 0x10 goes
+    to 0x2000·16 + 0x10. -/
+example :
     hexDecode [⟨2, 0, 4, [0, 1], 0xF9, .ela 1⟩, ⟨2, 0, 2, [0x20, 0], 0xDC, .base 0x2000⟩, ⟨1, 0x10, 0, [0xAA], 0x45, .none⟩]
-      ≠ hexRefAddrs [⟨2, 0, 4, [0, 1], 0xF9, .ela 1⟩, ⟨2, 0, 2, [0x20, 0], 0xDC, .base 0x2000⟩, ⟨1, 0x10, 0, [0xAA], 0x45, .none⟩] := by
+      = [(0x20010, [0xAA])] := by
   decide
 
 /-! ## ELF structure layouts -/
@@ -125,8 +125,10 @@ theorem unpack_reads_layout (be : Bool) (fs : List RawField) (data : Bytes) (bas
 /-- For every well-formed image (`ElfWF`: magic, header and both tables inside the file at any
     position, section-name string table valid) the constructor's header fields, program
     headers, section headers, section names, class and byte order are those of the reference reader.
-    Partial: `ElfWF.ph_known` excludes images with a program header whose `p_type` is not in amoco's
-    constant table — the code drops those (`keepPhdr`), see known finding `C14:elf:phdr-dropped`. -/
+    (Named `_partial` since the first version needed `ElfWF.ph_known`: the code dropped program headers
+    whose `p_type` is not in amoco's constant table; that was repaired in the code — `keepPhdr` is
+    constantly true — and the hypothesis is gone.  What remains outside `ElfWF` is malformed images,
+    which C20 covers.) -/
 theorem elf_parse_eq_ref_partial (env : ElfEnv) (data : Bytes) (h : ElfWF env data) :
     ∃ t, elfTables env data = .ok t ∧
       t.ident = (refElf data).ident ∧ t.ehdr = (refElf data).ehdr ∧
@@ -215,7 +217,6 @@ example : ElfWF { knownPT := [0, 1, 2, 3], knownSHT := [] } tinyElf where
   magic0 := by decide
   magic := by decide
   ph_in := by decide
-  ph_known := by decide
   sh_in := by decide
   strndx_pos := by decide
   strndx_lt := by decide
